@@ -126,7 +126,7 @@ class Check:
             "new_violations": [v["key"] for v in new],
             "obligation_list": [{"rule": o["rule"], "id": o["id"], "ok": o["ok"], "site": o["site"], "detail": o["detail"][:300]} for o in self.obligations][:400],
         }
-        cov.update(self.extra)
+        cov.update({k: v for k, v in self.extra.items() if not k.startswith("_")})
         if facts is not None:
             cov["build_config"] = facts.config
             cov["extraction"] = facts.meta
